@@ -24,6 +24,8 @@ def run(m, tier):
     from rules import optional_rules
     results.append(optional_rules.optional_rule(m, "C01.R12"))
     results.append(optional_rules.printed_rule(m, "C01.R18"))
+    from rules import reader_rules
+    results.append(reader_rules.rule_continuation(m, "C01.R19"))
     from rules import C02
     for fn, rid in ((C02.r2_replace_map, "C01.R5"), (C02.r6_inverse_map, "C01.R6"), (C02.r7_restore_order, "C01.R7")):
         rr_ = fn(m)
